@@ -68,6 +68,8 @@ def pool_models(seed, tag, n):
         else:
             spec = rand.rand_model(r, size, n_ctcs=r.randint(0, 3), ctc_depth=2,
                                    group_kinds=("alternative", "or", "mutex", "cardinality"), abstract_p=0.2)
+        if size > 1 and (k % 2 == 0 or tag == "shared"):
+            spec = rand.shared_vocabulary(spec, r, size=40)   # same names, different positions, across the pool
         out.append(spec)
     return out
 
@@ -135,6 +137,10 @@ def run_histories(acc, desc):
     triples = [(a, b, c) for a in range(len(pool)) for b in range(len(pool)) for c in range(len(pool))]
     r.shuffle(triples)
     seqs += triples[: 216 if desc["pool"] <= 6 else 500]
+    # every shard process meets the models in a different order, so that state kept for the lifetime of the
+    # process (class attributes, module-level caches) differs between the processes when a shared model is
+    # analysed; the cross-process comparison in finalize() and the fresh-process baseline then see it
+    r.shuffle(seqs)
     for oi, name in enumerate(OPS):
         other_name = OPS[(oi + 3) % len(OPS)]
         for seq in seqs:
@@ -162,8 +168,53 @@ def run_histories(acc, desc):
     acc.count("trace-events", len(trace))
     # export the shared-pool results for the cross-process comparison in finalize()
     acc.extra["shared"] = {f"{n}|{md}": d for (n, md), (d, _) in seen.items() if md in digests[:3]}
+    if i == 0:
+        acc.extra["fresh"] = fresh_baselines(acc, pool[:3], digests[:3])
     if len(acc.samples) < 2:
         acc.sample({"history": list(seqs[-1]), "ops": OPS, "trace_event": list(trace[-1])})
+
+
+def fresh_baselines(acc, specs, digests):
+    """History-free reference: each shared pool model is analysed by every operation in a brand-new
+    interpreter process that has executed nothing else."""
+    import json
+    import os
+    import subprocess
+    import tempfile
+    from .. import env
+    out = {}
+    for spec, md in zip(specs, digests):
+        fd, path = tempfile.mkstemp(prefix="vf-c19-", suffix=".json")
+        os.close(fd)
+        try:
+            with open(path, "w", encoding="utf-8") as fh:
+                json.dump(spec, fh)
+            p = subprocess.run([env.PYTHON, "-m", "vf.checks.c19", path], cwd=env.VERIF, env=env.child_env(),
+                               timeout=600, stdout=subprocess.PIPE, stderr=subprocess.PIPE)
+            if p.returncode != 0:
+                acc.inconc("fresh-process baseline failed: " + p.stderr.decode(errors="replace")[-300:])
+                continue
+            for name, d in json.loads(p.stdout.decode()).items():
+                out[f"{name}|{md}"] = d
+            acc.count("fresh-process-baselines")
+        finally:
+            os.remove(path)
+    return out
+
+
+def _fresh_main(path):
+    import json
+    from vf import env
+    env.bootstrap()
+    with open(path, encoding="utf-8") as fh:
+        spec = json.load(fh)
+    res = {}
+    for name in OPS:
+        model = S.build(spec)
+        op = make_op(name, model)
+        prepare(op, name, model)
+        res[name] = S.digest(val(op.execute(model).get_result()))
+    print(json.dumps(res))
 
 
 # ----------------------------------------------------------------------------- GenerateRandomAttribute
@@ -353,6 +404,15 @@ def finalize(acc, tier, seed):
                          {"kind": "cross-process", "key": k})
             seen.setdefault(k, d)
     acc.counters["cross-process-comparisons"] = n
+    nb = 0
+    for sh in acc.extra.get("shards", []):
+        for k, d in sh.get("fresh", {}).items():
+            nb += 1
+            if k in seen and seen[k] != d:
+                acc.fail("readonly:" + k.split("|")[0], "result-depends-only-on-argument", k.split("|")[0], [],
+                         "differs-from-fresh-process", f"{k}: {seen[k]} after earlier executions vs {d} in a fresh process",
+                         {"kind": "cross-process", "key": k})
+    acc.counters["fresh-process-baseline-comparisons"] = nb
 
 
 def replay(payload, acc):
@@ -366,3 +426,8 @@ def replay(payload, acc):
         run_histories(acc, desc)
     else:
         acc.inconc("this witness is replayed by re-running the tier with the same seed")
+
+
+if __name__ == "__main__":
+    import sys
+    _fresh_main(sys.argv[1])
